@@ -166,9 +166,15 @@ func c11Property(t *rapid.T) {
 		n := rapid.IntRange(0, 5).Draw(t, label+"-ntx")
 		if label == "crash" && rapid.IntRange(0, 5).Draw(t, "bigBlock") == 0 {
 			// a large block: stores that write big blocks in several batches show their intermediate states only here
-			for k := 0; k < rapid.IntRange(100, 130).Draw(t, "bigN"); k++ {
+			// (many transactions, and - with distinct receivers - many changed accounts in one state commit)
+			distinct := rapid.Bool().Draw(t, "bigDistinct")
+			for k, bigN := 0, rapid.IntRange(100, 300).Draw(t, "bigN"); k < bigN; k++ {
 				from := w.N.Admins[k%len(w.N.Admins)]
-				b.txs = append(b.txs, &txSpec{tx: w.Transfer(from, sim.KeyFor("c11-sink"), "1"), desc: "tx"})
+				to := sim.KeyFor("c11-sink")
+				if distinct {
+					to = sim.KeyFor(fmt.Sprintf("c11-receiver-%d", k))
+				}
+				b.txs = append(b.txs, &txSpec{tx: w.Transfer(from, to, "1"), desc: "tx"})
 			}
 		}
 		for i := 0; i < n; i++ {
